@@ -1207,7 +1207,6 @@ Section Ownership.
   (** * (O6) after [model_update] the rebound parameters are fresh leaves *)
 
   Theorem model_update_fresh_params : forall s : state,
-      NoDup (map e_node (unfrozen s (model_params s))) ->
       gd_pre s (model_params s) ->
       exists s', model_update O s = Some s' /\
         st_pool s' = st_pool s /\ st_output s' = st_output s /\
@@ -1226,8 +1225,8 @@ Section Ownership.
                n_children nd' = [] /\ p_bop (n_pay nd') = None /\
                p_buf (n_pay nd') = e_node h').
   Proof.
-    intros s Hnd Hpre.
-    destruct (model_update_spec O s Hnd Hpre) as (s1 & out & Hup & Hpost & Hmu & Hparams & _ & _).
+    intros s Hpre.
+    destruct (model_update_spec O s Hpre) as (s1 & out & Hup & Hpost & Hmu & Hparams & _ & _).
     exists (with_layers s1 (rebuild_layers (st_layers s) out)).
     destruct Hpost as ((P1 & P2 & P3 & P4 & P5 & P6) & Hlen & Hlen' & Hfrozen & Hunfrozen & _).
     split; [exact Hmu |]. split; [exact P1 |]. split; [exact P5 |].
